@@ -386,8 +386,18 @@ pub fn gen_bb_case(r: &mut Rng, g: &BbGenCfg) -> BbCase {
     }
     let used: Vec<&str> = input.iter().map(|(c, _)| c.name.as_str()).collect();
     let extra = extra_chroms(r, &used);
-    let autosql = match r.below(4) {
+    let autosql = match r.below(5) {
         0 => None,
+        // a schema longer than any 8 KiB read buffer (long comments are normal in real .as files), with a
+        // multi-byte character sitting across the 8192-byte mark
+        4 => {
+            let pad = 8192 - 30 + r.below(4) as usize;
+            Some(format!(
+                "table longSchema\n\"{}\u{3b1}\u{e9}\u{4e2d} {}\"\n(\n string chrom; \"c\"\n uint chromStart; \"s\"\n uint chromEnd; \"e\"\n lstring extra; \"x\"\n)\n",
+                "d".repeat(pad),
+                "tail ".repeat(1 + r.below(900) as usize)
+            ))
+        }
         1 => Some(bigtools::bed::autosql::bed_autosql(&input[0].1[0].rest)),
         2 => Some("table custom\n\"A custom \u{3b1} table\"\n(\n string chrom; \"c\"\n uint chromStart; \"s\"\n uint chromEnd; \"e\"\n lstring extra; \"x\"\n)\n".to_string()),
         _ => Some(format!("table t{}\n\"t\"\n(\nstring chrom; \"\"\nuint chromStart; \"\"\nuint chromEnd; \"\"\n)", r.below(1000))),
